@@ -73,7 +73,19 @@ def _snap_equal(a, b):
 
 
 def _dest(p, path):
+    if p["dest"] == "sibling":
+        return path + "::/res/dst"      # shares its top-level group with the neighbouring collection (the layout of a multi-resolution file)
     return path if p["dest"] == "root" else path + "::" + ("/dst" if p["dest"] != "deep" else "/a/dst")
+
+
+def _idkw(p):
+    """the bin-id columns declared narrower than the ids handed over (dtypes argument): an id outside the bin table is still out of range,
+    whatever it would wrap to in the declared type"""
+    return {"dtypes": {"bin1_id": p["id_dtype"], "bin2_id": p["id_dtype"]}} if p.get("id_dtype") else {}
+
+
+def _nb(p):
+    return "/res/nb" if p["dest"] == "sibling" else "/nb"
 
 
 def fault_sym(p):
@@ -83,8 +95,9 @@ def fault_sym(p):
     n, K, m, upper = p["n"], p["K"], p["m"], p["upper"]
     bins = concrete_bins([n], "even")
     # free records: any bin id in -1..n, any order; validity is decided by the oracle
-    b1 = [sym_int(f"r{q}", -1, n) for q in range(K)]
-    b2 = [sym_int(f"c{q}", -1, n) for q in range(K)]
+    lo, hi = p.get("idlo", -1), p.get("idhi", n)
+    b1 = [sym_int(f"r{q}", lo, hi) for q in range(K)]
+    b2 = [sym_int(f"c{q}", lo, hi) for q in range(K)]
     v = [sym_int(f"v{q}", 1, 5) for q in range(K)]
     cuts = sym_cuts(K, m)
     fail_at = concretize(sym_int("fail_at", 0, m)) if p["iterfault"] else m + 5
@@ -94,12 +107,12 @@ def fault_sym(p):
     neighbour = p["dest"] != "root" or p["neighbour"]
     if p["neighbour"]:
         nb1, nb2, nv = sym_pixels(n, 1, True, prefix="nb_")
-        build_cooler_sym(path, bins, nb1, nb2, {"count": nv}, True, group="/nb")
+        build_cooler_sym(path, bins, nb1, nb2, {"count": nv}, True, group=_nb(p))
         f = symh5.File(path, "r+")
         f.attrs["note"] = "keep me"
         if p["dest"] == "junk":
             f.create_group("/dst").create_dataset("x", data=SArr([1, 2], "int64"))
-        before = _snapshot(path, "/nb")
+        before = _snapshot(path, _nb(p))
     dst = _dest(p, path)
     valid = _chunk_valid(b1, b2, cuts, n, upper)
     dts = {"bin1_id": "int64", "bin2_id": "int64", "count": "int32"}
@@ -111,9 +124,9 @@ def fault_sym(p):
     failed = False
     try:
         if p["producer"] == "ordered":
-            sc.create_cooler(dst, bins, stream, ordered=True, symmetric_upper=upper, mode="a" if p["neighbour"] else "w")
+            sc.create_cooler(dst, bins, stream, ordered=True, symmetric_upper=upper, mode="a" if p["neighbour"] else "w", **_idkw(p))
         else:
-            sc.create_cooler(dst, bins, stream, ordered=False, symmetric_upper=upper, mode="a" if p["neighbour"] else "w", mergebuf=2)
+            sc.create_cooler(dst, bins, stream, ordered=False, symmetric_upper=upper, mode="a" if p["neighbour"] else "w", mergebuf=2, **_idkw(p))
     except (ValueError, Boom) as e:
         failed = True
     if not failed:
@@ -131,15 +144,15 @@ def fault_sym(p):
             rec = False  # no such group at all: nothing was created there (is_cooler's own behaviour on missing paths is C15)
         prove(not rec, "after a failed creation the destination is recognised as a cooler")
         listing = fo.list_coolers(path)
-        want = ["/nb"] if p["neighbour"] else []
+        want = [_nb(p)] if p["neighbour"] else []
         prove(listing == want, f"after a failed creation the file lists {listing}, expected {want}")
     if p["neighbour"]:
-        after = _snapshot(path, "/nb")
+        after = _snapshot(path, _nb(p))
         prove(_snap_equal(before, after), "a neighbouring collection in the same file changed although the creation failed")
         f = symh5.File(path, "r")
         prove(f.attrs.get("note") == "keep me", "an unrelated file attribute was lost")
         f.close()
-        c = sc.Cooler(path + "::/nb")
+        c = sc.Cooler(path + "::" + _nb(p))
         tab = c.pixels()[:]
         prove(and_(tab["bin1_id"].values[0] == nb1[0], tab["bin2_id"].values[0] == nb2[0], tab["count"].values[0] == nv[0]),
               "the neighbouring collection no longer reads back unchanged")
@@ -160,13 +173,13 @@ def fault_real(p, inputs):
     path = scratch_file("c13.cool")
     if p["neighbour"]:
         nb = pixels_from_inputs(inputs, 1, prefix="nb_")
-        build_cooler_real(path, bins, nb[0], nb[1], {"count": nb[2]}, True, group="/nb")
+        build_cooler_real(path, bins, nb[0], nb[1], {"count": nb[2]}, True, group=_nb(p))
         with h5py.File(path, "r+") as f:
             f.attrs["note"] = "keep me"
             if p["dest"] == "junk":
                 f.create_group("/dst").create_dataset("x", data=np.array([1, 2]))
         import subprocess
-        before = _real_dump(path, "/nb")
+        before = _real_dump(path, _nb(p))
     dst = _dest(p, path)
     valid = bool(_chunk_valid(b1, b2, cuts, n, upper))
     dts = {"bin1_id": "int64", "bin2_id": "int64", "count": "int32"}
@@ -174,9 +187,9 @@ def fault_real(p, inputs):
     failed = False
     try:
         if p["producer"] == "ordered":
-            cooler.create_cooler(dst, bins, stream, ordered=True, symmetric_upper=upper, mode="a" if p["neighbour"] else "w")
+            cooler.create_cooler(dst, bins, stream, ordered=True, symmetric_upper=upper, mode="a" if p["neighbour"] else "w", **_idkw(p))
         else:
-            cooler.create_cooler(dst, bins, stream, ordered=False, symmetric_upper=upper, mode="a" if p["neighbour"] else "w", mergebuf=2)
+            cooler.create_cooler(dst, bins, stream, ordered=False, symmetric_upper=upper, mode="a" if p["neighbour"] else "w", mergebuf=2, **_idkw(p))
     except (ValueError, Boom):
         failed = True
     if not failed:
@@ -193,10 +206,10 @@ def fault_real(p, inputs):
         if rec:
             raise OracleFailure("after a failed creation the destination is recognised as a cooler")
         listing = fo.list_coolers(path)
-        if listing != (["/nb"] if p["neighbour"] else []):
+        if listing != ([_nb(p)] if p["neighbour"] else []):
             raise OracleFailure(f"after a failed creation the file lists {listing}")
     if p["neighbour"]:
-        if _real_dump(path, "/nb") != before:
+        if _real_dump(path, _nb(p)) != before:
             raise OracleFailure("a neighbouring collection in the same file changed although the creation failed")
         with h5py.File(path, "r") as f:
             if f.attrs.get("note") != "keep me":
@@ -223,11 +236,14 @@ def _cases(tier):
     for b in base:
         for producer in ("ordered", "unordered"):
             for iterfault in (False, True):
-                for dest, neighbour in (("root", False), ("group", True), ("junk", True), ("deep", True)):
+                for dest, neighbour in (("root", False), ("group", True), ("junk", True), ("deep", True), ("sibling", True)):
                     if tier == "quick" and producer == "unordered" and dest in ("junk", "deep"):
                         continue
                     for upper in ((True, False) if (dest == "root" and not iterfault) else (True,)):
                         out.append(dict(b, producer=producer, iterfault=iterfault, dest=dest, neighbour=neighbour, upper=upper))
+    for producer in ("ordered", "unordered"):
+        for dt, lim in (("int8", 300), ("uint16", 70000)):
+            out.append(dict(n=2, K=1, m=1, producer=producer, iterfault=False, dest="root", neighbour=False, upper=False, id_dtype=dt, idlo=-lim, idhi=lim))
     return out
 
 
